@@ -3,6 +3,31 @@ import re
 from extract_core import extractor, read, strip_c_comments, c_array, c_ints, c_define
 
 
+def executions(body, pattern):
+    """how often a statement matching `pattern` is executed: each textual occurrence counts once, or (B - A) times when it
+    sits in the body of a counting loop `for (i = A; i < B; i++) { ... }` with literal bounds (the same thing written as a loop)"""
+    loops = []
+    for m in re.finditer(r"for\s*\(\s*(\w+)\s*=\s*(\d+)\s*;\s*\1\s*<\s*(\d+)\s*;\s*(?:\1\s*\+\+|\+\+\s*\1)\s*\)\s*\{", body):
+        depth, j = 0, m.end() - 1
+        while j < len(body):
+            if body[j] == "{":
+                depth += 1
+            elif body[j] == "}":
+                depth -= 1
+                if depth == 0:
+                    break
+            j += 1
+        loops.append((m.end(), j, int(m.group(3)) - int(m.group(2))))
+    total = 0
+    for m in re.finditer(pattern, body):
+        w = 1
+        for a, b, n in loops:
+            if a <= m.start() < b:
+                w *= max(n, 0)
+        total += w
+    return total
+
+
 @extractor(soft=True)
 def dh_consts(repo):
     msgs = []
@@ -15,16 +40,21 @@ def dh_consts(repo):
     keylen = int(c_define(hdr, "CRYPTO_DH_KEYLEN"), 0)
     body = strip_c_comments(dh)
     # how many times two_exp_256 is added to priv_bn / blinding_bn
-    n_priv = len(re.findall(r"BN_add\(\s*priv_bn\s*,\s*priv_bn\s*,\s*two_exp_256_bn\s*\)", body))
-    n_blind = len(re.findall(r"BN_add\(\s*blinding_bn\s*,\s*blinding_bn\s*,\s*two_exp_256_bn\s*\)", body))
+    n_priv = executions(body, r"BN_add\(\s*priv_bn\s*,\s*priv_bn\s*,\s*two_exp_256_bn\s*\)")
+    n_blind = executions(body, r"BN_add\(\s*blinding_bn\s*,\s*blinding_bn\s*,\s*two_exp_256_bn\s*\)")
     m = re.search(r"BN_bin2bn\(\s*two_exp_256\s*,\s*(\d+)", body)
     two_len = int(m.group(1)) if m else -1
     m = re.search(r"BN_bin2bn\(\s*crypto_dh_group14\s*,\s*(\d+)", body)
     mod_len = int(m.group(1)) if m else -1
     m = re.search(r"memcmp\(\s*pub\s*,\s*crypto_dh_group14\s*,\s*(\d+)\s*\)\s*(>=|>|<=|<|==|!=)\s*0", body)
-    if not m:
-        msgs.append("crypto_dh_sanitycheck: memcmp comparison not found")
     cmp_len, cmp_op = (int(m.group(1)), m.group(2)) if m else (-1, "?")
+    # the same test written negated: !(memcmp(...) < 0)  is  memcmp(...) >= 0
+    mn = re.search(r"!\s*\(\s*memcmp\(\s*pub\s*,\s*crypto_dh_group14\s*,\s*(\d+)\s*\)\s*(>=|>|<=|<|==|!=)\s*0\s*\)", body)
+    if mn:
+        cmp_len = int(mn.group(1))
+        cmp_op = {"<": ">=", "<=": ">", ">": "<=", ">=": "<", "==": "!=", "!=": "=="}[mn.group(2)]
+    elif not m:
+        msgs.append("crypto_dh_sanitycheck: memcmp comparison not found")
     if n_priv == 0 or n_blind == 0:
         msgs.append("blinded_modexp: BN_add pattern not found")
     def bl(xs):
